@@ -253,6 +253,40 @@ fn main() {
             }
             extra = json!({"delivery_wait_ms_after_the_overrun": waits});
         }
+        // C07: report() runs on the library's threads; a reporter that needs an ordinary amount of
+        // stack (well inside the default 2 MiB of a Rust thread) must not bring the process down
+        "reporter-needs-stack" => {
+            struct Hungry(Rep);
+            impl Reporter for Hungry {
+                fn report(&mut self, spans: Vec<SpanRecord>) {
+                    // an on-stack scratch buffer of 600 KiB, as an encoder might keep
+                    let mut buf = [0u8; 600 * 1024];
+                    for (i, r) in spans.iter().enumerate() {
+                        buf[(i * 4099) % buf.len()] = r.name.len() as u8;
+                    }
+                    std::hint::black_box(&mut buf);
+                    self.0.report(spans);
+                }
+            }
+            let rep = Rep::default();
+            fastrace::set_reporter(Hungry(rep.clone()), Config::default().report_interval(Duration::from_millis(5)));
+            // through the background collector
+            small_trace(0x57A1, "background");
+            if !wait_until(Duration::from_secs(20), || rep.count(0x57A1) == 3) {
+                panic!("the background collector did not deliver within 20 s");
+            }
+            // and through flush()
+            for k in 0..3u128 {
+                small_trace(0x57B0 + k, "flushed");
+                fastrace::flush();
+                c();
+            }
+            let n: usize = (0..3u128).map(|k| rep.count(0x57B0 + k)).sum();
+            extra = json!({"stack_bytes_used_by_report": 600 * 1024, "records_delivered_through_flush": n});
+            if n != 9 {
+                panic!("{} of 9 records delivered through flush()", n);
+            }
+        }
         // C01: a reporter being replaced while the old one is busy does not turn new traces into no-ops
         "set-reporter-while-reporting" => {
             struct Gated(Rep, Arc<AtomicBool>, Arc<AtomicBool>);
